@@ -377,7 +377,7 @@ def plan_thorough(units, quick_units):
     for u in units:
         q = qk.get(_ukey(u)) if isinstance(u, dict) else None
         if q is not None:
-            u['prio'] = _prio(q)
+            u['prio'] = min(_prio(q), u.get('prio', 0))
             u['_quick_timeout'] = q.get('timeout', 30)
             first.append(u)
         else:
